@@ -3,6 +3,8 @@
     (mean copies N w_i over uniform offset grids of every resolution c * sum(w)). *)
 From Coq Require Import ZArith List Lia Bool QArith.
 Import ListNotations.
+From Coq Require Import Qcanon.
+From GV Require Import Lemmas.ResampleLaw.
 From GV Require Import Model.Resample Lemmas.ResampleLemmas Lemmas.SysResample Lemmas.SysUnbiased.
 Open Scope Z_scope.
 
@@ -84,3 +86,27 @@ Example C12_nonvacuous :
   sys_indices [1; 2; 0; 5] 8 3 10 = [0; 1; 1; 3; 3; 3; 3; 3]%nat
   /\ map (copies (sys_indices [1; 2; 0; 5] 8 3 10)) [0; 1; 2; 3]%nat = [1; 2; 0; 5]%nat.
 Proof. vm_compute. auto. Qed.
+
+(** Categorical (multinomial) resampling: the ancestor vector is N independent draws with
+    probabilities w_i / W.  For every weight vector with non-zero total, every N and every test
+    function: the expected number of copies of particle i is N w_i / W, and the equal-weight
+    average over the resampled particles has the expectation of the weighted average before
+    resampling ([EcatN]: the exact finite expectation over the N draws; that the JAX sampler
+    realises this law is outside the model). *)
+Theorem C12_categorical_expected_copies :
+  forall (ws : list Qc) (i n : nat), sumq ws <> 0%Qc -> (i < length ws)%nat ->
+    EcatN ws n (copiesq i) = (qcn n * (nth i ws 0 / sumq ws))%Qc.
+Proof. intros ws i n HW Hi. apply categorical_expected_copies; assumption. Qed.
+Print Assumptions C12_categorical_expected_copies.
+
+Theorem C12_categorical_estimate_preserved :
+  forall (ws : list Qc) (f : nat -> Qc) (n : nat), sumq ws <> 0%Qc -> (0 < n)%nat ->
+    EcatN ws n (fun l => (ResampleLaw.sumf f l / qcn n)%Qc)
+    = ResampleLaw.sumf (fun i => (nth i ws 0 / sumq ws * f i)%Qc) (seq 0 (length ws)).
+Proof. intros ws f n HW Hn. apply categorical_estimate_preserved; assumption. Qed.
+Print Assumptions C12_categorical_estimate_preserved.
+
+Example C12_categorical_nonvacuous :
+  EcatN [Q2Qc 1; Q2Qc 2; Q2Qc 1] 4 (copiesq 1) = Q2Qc 2
+  /\ EcatN [Q2Qc 1; Q2Qc 2; Q2Qc 1] 4 (fun _ => Q2Qc 1) = Q2Qc 1.
+Proof. split; apply Qc_is_canon; vm_compute; reflexivity. Qed.
